@@ -259,6 +259,16 @@ def check_case(case, rec, lib, sp=None):
 
 def gen_case(rng):
     payload = jsonvals.rand_payload(rng)
+    r0 = rng.random()
+    if r0 < 0.12:
+        # a payload that is itself envelope-shaped (countersigning a signed document) - with / without inner signatures
+        inner = jsonvals.rand_payload(rng)
+        ik = gkeys.key(10 + rng.randrange(3))
+        payload = {"signatures": rng.choice([{}, {ik.hex: {"signature": ed25519.sign(ik.seed, canonjson.canon(inner)).hex()}},
+                                             {"junk": "x"}]), "signed": inner}
+    elif r0 < 0.16:
+        payload = rng.choice([{"signed": 1}, {"signatures": {}}, {"signatures": [], "signed": {}}, {"signatures": {}, "signed": {}, "x": 1},
+                              {"signed": {"signatures": {}, "signed": None}, "signatures": {}}])
     nk = rng.choice([1, 1, 2, 2, 3, 3, 4, 5])
     idx = rng.sample(range(8), nk)
     seeds = [gkeys.key(i).seed.hex() for i in idx]
